@@ -242,8 +242,14 @@ func gen(r *Rand, i int) Input {
 	batch, batchStyle := genBatch(r, pool, isSingle(in.Kind))
 	in.Batch = batch
 	in.Tags = []string{forkStyle, slotStyle, poolStyle, batchStyle}
-	if r.Chance(1, 15) {
+	if r.Chance(1, 9) {
+		// a chain spec without one of the optional domain types: more often than not the one that
+		// this request's duty is signed with (the signer must refuse, not make one up)
 		in.Absent = []string{[]string{"sync", "syncsel", "contrib", "builder"}[r.Intn(4)]}
+		if own, ok := map[string]string{"syncroots": "sync", "syncsel": "syncsel", "contributions": "contrib", "registration": "builder"}[in.Kind]; ok && r.Chance(3, 4) {
+			in.Absent = []string{own}
+			in.Tags = append(in.Tags, "absent:domain-type-of-this-duty")
+		}
 	}
 	if r.Chance(1, 30) {
 		in.DomFail = true
